@@ -37,6 +37,8 @@ Hypothesis R_refl : forall a w, R a w w.
 Hypothesis R_trans : forall a w1 w2 w3, R a w1 w2 -> R a w2 w3 -> R a w1 w3.
 Hypothesis R_emit : forall a w e, R a w (emit w e).
 Hypothesis R_vars : forall a w l, R a w (set_vars w l).
+Hypothesis R_vstamps : forall a w l, R a w (set_vstamps w l).
+Hypothesis R_marks : forall a w l, R a w (set_marks w l).
 Hypothesis R_crashed : forall a w c, R a w (set_crashed w c).
 Hypothesis R_bump : forall a w, R a w (bump_rec w).
 Hypothesis R_oof : forall a w, R a w (set_oof w).
@@ -120,14 +122,24 @@ Proof.
       * rt; [apply R_emit|]. rt; [apply R_bump|]. apply R_crashed.
       * rt; [apply R_emit|]. apply R_bump.
     + rt; [apply R_emit|]. apply R_bump.
-  - apply R_vars.
-  - apply R_vars.
-  - apply R_vars.
+  - unfold write_var. rt; [apply R_vars|apply R_vstamps].
+  - unfold write_var. rt; [apply R_vars|apply R_vstamps].
+  - unfold write_var. rt; [apply R_vars|apply R_vstamps].
   - apply R_fold_in. intros w' t _. rt; [|apply R_bid].
     destruct c; destruct p; try apply R_refl; apply R_per.
   - destruct Hsub as [_ [_ [_ [_ Hs]]]]. eapply R_sub; [apply Hch; reflexivity|apply Hs].
   - apply R_fold_in. intros w' x Hx. apply R_done. apply Hdn. exact Hx.
   - destruct (done _); [apply R_refl|apply R_deactivate; apply Hch; reflexivity].
+  - apply R_marks.
+  - apply R_marks.
+Qed.
+
+Lemma tracts_ok a ns ac : In ac (tracts_of ns) -> act_ok a ac.
+Proof.
+  unfold tracts_of. rewrite in_flat_map. intros [n [_ Hn]].
+  induction n; cbn in Hn; try contradiction; auto.
+  - destruct Hn as [<-|[]]. split; intros x Hx; destruct Hx.
+  - destruct Hn as [<-|[]]. split; intros x Hx; destruct Hx.
 Qed.
 
 Lemma R_run_acts a l w : (forall ac, In ac l -> act_ok a ac) -> R a w (run_acts P sub a l w).
@@ -181,6 +193,7 @@ Proof.
   unfold transit. destruct (negb (forallb _ ns)); [apply R_refl|].
   destruct (ExEn P a (actives (gett w a)) far) as [[ex en] re].
   destruct (negb (framer_checkEnter P sub a en ex w)); [apply R_refl|]. cbn [fst].
+  rt; [apply R_run_acts; intros; eapply tracts_ok; eauto|].
   rt; [apply R_framer_exit|]. rt; [apply R_framer_rexit|]. rt; [apply R_framer_renter|].
   rt; [apply R_framer_enter|]. apply R_guard. intros; apply R_activate.
 Qed.
@@ -196,6 +209,7 @@ Proof.
       assert (HW : R a w W); [|destruct (crashed W)] end.
     { rt; [|apply R_guard; intros; eapply R_sub; [exact Hc|apply Hrc]].
       rt; [|eapply R_sub; [exact Hc|apply He]].
+      rt; [apply R_run_acts; intros; eapply tracts_ok; eauto|].
       destruct (fm_original _); [apply R_main; exact Hc|apply R_refl]. }
     + exact HW.
     + match goal with |- R a w (fst (if ?c then _ else _)) => destruct c end; cbn [fst].
